@@ -18,7 +18,7 @@ EXPLANATION = (
     "option occurs both in PIKA_COMMANDLINE_OPTIONS and on the command line.")
 ASSUMPTIONS = ["program_options::variables_map::count(k) > 0 iff option k was given", "${ENV:default} placeholders in the default ini are expanded by the ini module from the environment"]
 THOROUGH_CONFIGS = [["-UNDEBUG", "-DPIKA_DEBUG"]]
-FLOORS = {"C16.R1": 11, "C16.R2": 10, "C16.R3": 8, "C16.R4": 3, "C16.R6": 1, "C16.R7": 1, "C16.R8": 1}
+FLOORS = {"C16.R1": 11, "C16.R2": 10, "C16.R3": 8, "C16.R4": 3, "C16.R6": 1, "C16.R7": 1, "C16.R8": 1, "C16.R9": 8}
 
 SETTINGS = [  # (command line option, ini key, environment variable, handler)
     ("pika:threads", "pika.os_threads", "PIKA_THREADS", "handle_num_threads"),
@@ -61,6 +61,8 @@ def run(rep, tier):
     rep.rule("C16.R5", "K8 (writer/reader agreement): the stack-size defaults the configuration writes (hexadecimal literals) are parsed by a reader that accepts that notation; a value that does not parse is not replaced silently by a different number")
     rep.rule("C16.R6", "K2/K8: precedence between PIKA_COMMANDLINE_OPTIONS and the command line: the two token sources are not handed to one parser run as a plain "
              "concatenation while single-valued options exist (one run rejects a repeated single-valued option instead of letting the command line win)")
+    rep.rule("C16.R9", "K8 (environment reach): every handler's fallback reads the runtime configuration's entry for its key (where ${ENV:default} is expanded) - itself or through "
+             "the default argument handle_arguments passes - not only the explicit --pika:ini entries")
     rep.rule("C16.R8", "K7/K8 (decision chain): partitioner::setup_schedulers maps the resolved pika.scheduler value to the policy of that name - each name test assigns the enum of the "
              "same name, and no full name is a prefix of a name tested before it (prefix tests accept abbreviations, so order decides)")
     rep.rule("C16.R7", "K4 (must-check, may-analysis): the resolved worker count is the one the runtime uses - the resource partitioner's setup_pools reaches its exit only over the "
@@ -166,6 +168,28 @@ def run(rep, tier):
             rep.bad("C16.R1", ha, ha.loc, "chain:" + opt, "; ".join(probs))
         else:
             rep.ok("C16.R1", ha, "--%s <-> %s <-> ${%s} <-> write-back: all spelled consistently" % (opt, ini, env))
+
+    # ---- R9: the environment reaches the handler.  ${ENV:default} placeholders live in the runtime configuration
+    # (rtcfg_), the user's explicit --pika:ini entries in cfgmap.  A handler therefore falls back to
+    # cfgmap.get_value(key, <value of the runtime configuration>): the runtime configuration's entry for the key is read -
+    # by the handler itself or by handle_arguments for the handler's default argument.
+    for opt, ini, env, hname in SETTINGS:
+        if not hname:
+            continue
+        h = handlers.get(hname)
+        reads = []
+        for fn_, evs_ in ((h, list(h.all_events()) if h is not None else []),
+                          (ha, [(b, i, e) for b, i, e in ha.all_events() if h is None or (e.get("k") == "call" and callee_short(e) == hname)])):
+            for b, i, e in evs_:
+                for c_ in subexprs(e, lambda y: isinstance(y, dict) and y.get("k") == "call" and callee_short(y) in ("get_entry", "get_entry_as")):
+                    if ini in literals(c_.get("args", [])):
+                        reads.append((fn_, c_))
+        if reads:
+            rep.ok("C16.R9", reads[0][0], "%s: the fallback reads the runtime configuration's %s (where ${%s} is expanded)" % (hname, ini, env))
+        else:
+            rep.bad("C16.R9", h if h is not None else ha, (h if h is not None else ha).loc, "env-not-consulted:" + opt,
+                    "%s falls back to cfgmap (the explicit --pika:ini entries) only: the runtime configuration's entry %s - the one the built-in defaults define as ${%s:...} - is never read, "
+                    "so the environment variable %s has no effect (only --%s and --pika:ini=%s=... do)" % (hname, ini, env, env, opt, ini))
 
     # ---- R2
     simple = {"handle_scheduler": ("pika:scheduler", "pika.scheduler"), "handle_affinity": ("pika:affinity", "pika.affinity"),
